@@ -76,6 +76,19 @@ def run(ver):
     t0 = __import__("time").time()
     corpus = os.path.join(wd, "corpus.ndjson")
     summ = core.run_harness(full_bin, ["c20corpus", ver.tier, str(ver.seed), corpus])
+    # the specification's own cases for the bridge (every family type x boundary values x input modes, MC_C17) join the corpus:
+    # every configuration must treat them alike
+    res = core.run_tlc("MC_C17", "MC_C17.cfg", wd, timeout=3000)
+    core.tlc_failure(res, "MC_C17")
+    extra = 0
+    with open(corpus, "a") as out:
+        for payload in core.tlc_lines(res["out_path"], "CASE"):
+            c = json.loads(core.parse_tla_string(payload))
+            for fam in ("sde", "sser"):
+                out.write(json.dumps({"fam": fam, "name": c["name"], "in": {"bytes": c["in"]["bytes"]}}) + "\n")
+                extra += 1
+    os.remove(res["out_path"])
+    summ["lines"] += extra
     outs, ran = {}, {}
     for cfg, _ in CONFIGS:
         outs[cfg] = os.path.join(wd, f"out-{cfg}.ndjson")
